@@ -36,6 +36,10 @@ class PathLimit(BaseException):
     pass
 
 
+class EngineLimit(BaseException):
+    """the code did something on a symbolic value that the engine does not model (e.g. round()): the path is undecided"""
+
+
 class Outcome(object):
     """result of vc.call: kind 'ret' (value) or 'exc' (exception instance)"""
 
@@ -405,7 +409,7 @@ class Engine(object):
         return s
 
     def round_(self, x, k):
-        raise TypeError("round() of a symbolic real outside the hash world")
+        raise EngineLimit("round() of a symbolic real outside the hash world")
 
     PI = Fraction(math.pi)
     # cos(0.1) bracketed by rationals 1e-12 apart (SMALL_ANGLE = 0.1 is the only angle constant the library compares with)
@@ -754,7 +758,7 @@ def run_group(name, harness, stubs=(), patches=True, feas_timeout_ms=3000, prove
                 continue
             except (PathLimit, KeyboardInterrupt):
                 raise
-            except Exception as e:
+            except (Exception, EngineLimit) as e:
                 # the harness itself failed on this path (e.g. the code under verification no longer has the shape the
                 # proof script expects): the clauses registered so far are still decided, the rest of the path is undecided
                 eng.obligations.append(Obligation("harness completed on this path", None, len(eng.facts), "harness-error"))
